@@ -421,7 +421,9 @@ def dd_from_SLiM_files(fnames, mut_types=None, chr='SLIM_'):
 
     # Create the empty data dictionary
     dd = {}
-    for global_id in all_muts:
+    # Sorted, so that the order of the entries (and hence the round-off of
+    # anything summed over them) does not depend on the interpreter's hash seed.
+    for global_id in sorted(all_muts):
         key = 'SLiM_'+loc_dict[global_id] + '.' + global_id
         dd[key] = {'segregating': [0,1],
                          'outgroup_allele': 0,
